@@ -249,6 +249,8 @@ def obligations(tier: str):
         obs.append(Ob("update_weights", {"struct": st, "timeout_ms": 120000 if T else 30000}, name=f"engineB_update_weights_{st}", kind="smt", timeout=900 if T else 150, twin=False, smoke=0))
     obs.append(Ob("repeat_extraction", {}, name="concrete_f6_repeated_extraction", timeout=60, smoke=1))
     obs.append(Ob("pt_choice", {"fixture": "f6", "D": 6 if T else 3}, name="pt_decider_choice_f6"))
+    obs.append(Ob("pt_choice", {"fixture": "f6", "grammar_fn": "grammar_zero_first", "D": 6 if T else 3}, name="pt_decider_choice_f6_zero_weight_first"))
+    obs.append(Ob("chooser", {"fixture": "f6", "grammar_fn": "grammar_zero_first", "rep": "tree", "decider": "pt", "fuel": 14 if T else 9, "ops": []}, name="tree_pt_f6_zero_first_no_zero_weight_node", timeout=800 if T else 100))
     obs.append(Ob("chooser", {"fixture": "f6", "rep": "tree", "decider": "pt", "fuel": 14 if T else 9, "ops": []}, name="tree_pt_f6_no_zero_weight_node", timeout=800 if T else 100))
     obs.append(Ob("weighted_target_choice", {"fixture": "f6"}, name="stack_weighted_target_choice_f6"))
     return obs
